@@ -258,13 +258,43 @@ func c10(r *Report) {
 			r.Fail("lockset", "(*M/h2.outputBuffer).emitEligibleFrames: send on output while flowMu is held", "a plain channel send (no select with an escape case) executes under flowMu; it is reachable from the peer's reader goroutine (updateWindow -> emitEligibleFrames) after this relay's writer goroutine has returned, and then blocks forever with the lock held once the channel is full", nil, s.Pos())
 		}
 		for _, in := range instrs(emit) {
-			if sel, ok := in.(*ssa.Select); ok {
-				for _, st := range sel.States {
-					if st.Dir == types.SendOnly {
-						r.Sites++
-						r.Hold("lockset", "(*M/h2.outputBuffer).emitEligibleFrames: send on output while flowMu is held", "the send sits in a select with an alternative", sel.Pos())
+			sel, ok := in.(*ssa.Select)
+			if !ok {
+				continue
+			}
+			for _, st := range sel.States {
+				if st.Dir != types.SendOnly {
+					continue
+				}
+				// the escape: a receive on a channel that is closed when the relay's relayFrames returns
+				escape := false
+				for _, alt := range sel.States {
+					if alt.Dir != types.RecvOnly {
+						continue
+					}
+					// the channel is a field (of the buffer or the relay) that relayFrames closes on exit
+					var fname string
+					for v := range w.backSlice(alt.Chan, flowOpt{}) {
+						if fa, y := v.(*ssa.FieldAddr); y {
+							fname = fieldObj(fa).Name()
+						}
+					}
+					for _, c := range calls(rf) {
+						d, isD := c.(*ssa.Defer)
+						if !isD {
+							continue
+						}
+						if b, isB := d.Call.Value.(*ssa.Builtin); isB && b.Name() == "close" {
+							for v := range w.backSlice(d.Call.Args[0], flowOpt{}) {
+								if fa, y := v.(*ssa.FieldAddr); y && fname != "" && fieldObj(fa).Name() == fname {
+									escape = true
+								}
+							}
+						}
 					}
 				}
+				r.Sites++
+				r.Decide("lockset", "(*M/h2.outputBuffer).emitEligibleFrames: send on output while flowMu is held", escape, "the send sits in a select whose other arm is a channel relayFrames closes (deferred) when the relay ends", "the select around the send has no arm that fires when the relay has ended: the peer's reader still blocks with the lock held", sel.Pos())
 			}
 		}
 	})
